@@ -150,6 +150,10 @@ class Engine:
         if isinstance(v, Opt):
             t = self.truthy(v.val, st)
             return z3.And(z3.Not(v.is_none), to_z3_bool(t))
+        if isinstance(v, Opaque) and v.kind == 'str':
+            return self.opaque_pred(v, 'str_nonempty')
+        if isinstance(v, Opaque) and v.kind in self.symbolic_truth_kinds:
+            return self.opaque_pred(v, 'truthy')
         if isinstance(v, (ExcV, Opaque, FuncRef, ClassRef, BoundMethod, ExtMethod, PartialV, Closure, Builtin, ExtClassRef)):
             return True  # A-EXC-TRUTHY / plain objects
         if isinstance(v, FStr):
@@ -171,6 +175,8 @@ class Engine:
                 return True
             return True
         raise EngineError(f'truthiness of {type(v).__name__}')
+
+    symbolic_truth_kinds = ()
 
     def find_method_of(self, hobj, name):
         if isinstance(hobj.cls, ClassInfo):
